@@ -196,15 +196,19 @@ class EvolveAppTask(BaseEvolutionTask):
 
         logger.debug('New models: %r', new_models)
 
-        if migrating:
+        recorded_extra_migrations = False
+
+        if migration_executor is not None:
             # If we have any applied migration names we wanted to record, do it
-            # before we begin any migrations.
+            # before we begin any migrations. This must happen even if there
+            # are no other migrations left to apply.
             applied_migrations = \
-                state['migration_executor'].loader.extra_applied_migrations
+                migration_executor.loader.extra_applied_migrations
 
             if applied_migrations:
                 record_applied_migrations(connection=evolver.connection,
                                           migrations=applied_migrations)
+                recorded_extra_migrations = True
 
         # Let any listeners know that we're beginning the process.
         emit_pre_migrate_or_sync(verbosity=evolver.verbosity,
@@ -265,6 +269,7 @@ class EvolveAppTask(BaseEvolutionTask):
         if migrating:
             finalize_migrations(migrate_state)
 
+        if migrating or recorded_extra_migrations:
             # Write the new lists of applied migrations out to the signature.
             applied_migrations = \
                 MigrationList.from_database(evolver.connection)
@@ -547,6 +552,12 @@ class EvolveAppTask(BaseEvolutionTask):
         # pre_migrate_state, since we'll still want it for signal emissions.
         result = {
             'pre_migrate_state': pre_migrate_state,
+
+            # This is needed even if there's no migration left to apply
+            # (every migration of an app may be covered by a
+            # MoveToDjangoMigrations mutation), so that dependencies on
+            # those migrations can be dropped from the evolution graph.
+            'to_mark_applied': migrations_to_mark_applied,
         }
 
         if not pre_migration_plan:
